@@ -18,6 +18,7 @@ from harness.engine import Violation, HarnessError
 
 ID = "C20"
 LEVEL = "exploration"
+SHRINK = {"quick": True, "thorough": True}
 RULE = ("Hypothesis over a grammar of comment texts (words, punctuation, quotes, backslashes, long tokens; "
         "separators: spaces, runs, newlines, blank lines, tabs, colons, list markers) x width in [20,120], "
         "indent < width, offset < width; over docstring embedding forms scanned from the templates; over a "
